@@ -437,6 +437,8 @@ def make_module(I):
         shape = tuple(I.iterate(shape, st))
         if not all(isinstance(s, int) for s in shape):
             raise Unsupported("np.zeros with symbolic shape")
+        if any(s < 0 for s in shape):
+            return exc("ValueError", "negative dimensions are not allowed")
         z = 0 if (isinstance(dtype, BuiltinClass) and dtype.name == "int") else Fraction(0)
         return st.alloc(NdE(shape, [z] * size(shape)))
 
@@ -446,6 +448,10 @@ def make_module(I):
         if isinstance(shape, int):
             shape = (shape,)
         shape = tuple(I.iterate(shape, st))
+        if not all(isinstance(s, int) for s in shape):
+            raise Unsupported("np.ones with symbolic shape")
+        if any(s < 0 for s in shape):
+            return exc("ValueError", "negative dimensions are not allowed")
         return st.alloc(NdE(shape, [Fraction(1)] * size(shape)))
 
     reg("ones", ones)
@@ -459,6 +465,8 @@ def make_module(I):
         shape = tuple(I.iterate(shape, st))
         if not all(isinstance(s, int) for s in shape):
             raise Unsupported("np.empty with symbolic shape")
+        if any(s < 0 for s in shape):
+            return exc("ValueError", "negative dimensions are not allowed")
         return st.alloc(NdE(shape, [I.fresh("real", "uninit") for _ in range(size(shape))]))
 
     reg("empty", empty)
@@ -494,6 +502,7 @@ def make_module(I):
     N["absolute"] = N["abs"]
     N["ndarray"] = BuiltinClass("ndarray")
     N["float64"] = BuiltinClass("float", float)
+    N["float32"] = BuiltinClass("float", float)  # A1: single precision is a real number too (rounding not modelled)
     N["int64"] = BuiltinClass("int", int)
     N["integer"] = BuiltinClass("integer")
     N["floating"] = BuiltinClass("floating")
